@@ -396,28 +396,44 @@ def replay_state(args) -> List[Fail]:
     return fails
 
 
-def fixpoint_fail(case, b1: bytes, b2: bytes) -> Fail:
+def fixpoint_diff(b1: bytes, b2: bytes):
+    """-> (json path of the first difference, parsed first body or None, message)"""
     try:
         j1, j2 = json.loads(b1), json.loads(b2)
         path = first_diff(j1, j2) or "<bytes-only>"
     except Exception:
-        j1 = j2 = None
+        j1 = None
         path = "<not-json>"
+    i = next((k for k in range(min(len(b1), len(b2))) if b1[k] != b2[k]), min(len(b1), len(b2)))
+    a, b = b1[max(0, i - 60):i + 60], b2[max(0, i - 60):i + 60]
+    return path, j1, f"write(load(write(s))) differs from write(s) at {path}: ...{a!r}... vs ...{b!r}..."
+
+
+def weight_path_edge(path: str, j1):
+    """the edge record of the first body when the first difference is gel.edges.<key>.weight"""
     parts = path.split("/")
-    sig: Dict[str, Any]
-    if case is not None and len(parts) >= 5 and parts[1:3] == ["gel", "edges"] and parts[4] == "weight":
-        rec = j1["gel"]["edges"].get(parts[3], {})
-        ids = IDSETS[case["aux"]["ids"]]
-        inv = {v: k for k, v in ids.items()}
+    if j1 is not None and len(parts) >= 5 and parts[1:3] == ["gel", "edges"] and parts[-1] == "weight":
+        return j1["gel"]["edges"].get("/".join(parts[3:-1]), {})
+    return None
+
+
+def generalise(path: str) -> str:
+    parts = path.split("/")
+    if parts[1:3] in (["gel", "edges"], ["gel", "nodes"]) and len(parts) > 3:
+        return "/".join(parts[:3] + ["*", parts[-1]]) if len(parts) > 4 else "/".join(parts[:3] + ["*"])
+    return path
+
+
+def fixpoint_fail(case, b1: bytes, b2: bytes) -> Fail:
+    path, j1, msg = fixpoint_diff(b1, b2)
+    rec = weight_path_edge(path, j1)
+    if rec is not None:
+        inv = {v: k for k, v in IDSETS[case["aux"]["ids"]].items()}
         pair = tuple(sorted((inv.get(rec.get("src")), inv.get(rec.get("dst")))))
         sig = signature(case, "weight", pair)
     else:
-        gen = "/".join("*" if (i == 3 and parts[1:3] in (["gel", "edges"], ["gel", "nodes"])) else p for i, p in enumerate(parts))
-        sig = signature(case, "fixpoint:" + gen) if case is not None else {"feature": "fixpoint:" + gen}
-    a = b1[:0]
-    i = next((k for k in range(min(len(b1), len(b2))) if b1[k] != b2[k]), min(len(b1), len(b2)))
-    a, b = b1[max(0, i - 60):i + 60], b2[max(0, i - 60):i + 60]
-    return ("WriteLoadWriteFixpoint", sig, f"write(load(write(s))) differs from write(s) at {path}: ...{a!r}... vs ...{b!r}...")
+        sig = signature(case, "fixpoint:" + generalise(path))
+    return ("WriteLoadWriteFixpoint", sig, msg)
 
 
 # ---------------------------------------------------------------------------------------------
@@ -556,7 +572,7 @@ W_SIX = (1250000, -1234564, 20000000, "nan", "ninf", -6)
 
 BASE = {"Ids": Def("{1, 2}"), "Rels": Def("{1, 2}"), "WVals": Def(W(*W_QUICK)), "MaxE": 1, "EForms": ["dict", "dictk", "list"],
         "NodeSets": Def("{{}}"), "NForms": ["dict"], "Metas": ["good"], "Bounds": Def(B(B_DEF)), "Versions": ["num"],
-        "SKinds": ["w"], "WKeys": 1, "SVals": Def(W(1234567)), "Auxs": Def(AUX())}
+        "SKinds": ["none"], "WKeys": 1, "SVals": Def(W(1234567)), "Auxs": Def(AUX())}
 INVS = ["Idempotent", "RestoreVersion", "RestoreWeights", "RestoreGel", "WriteLoadWriteFixpoint", "SchemaMarked",
         "KeysCanonical", "OnGrid6", "InBounds", "ChosenAdmissible", "NothingLost"]
 
